@@ -202,13 +202,17 @@ class EvolveStateVector(torch.autograd.Function):
             krylov_tolerance (float): tolerance for krylov_exp
             pulser_lindblads: unused, present for compatibility with EvolveDensityMatrix
         """
+        # krylov_exp normalises its input in place. Under autograd the incoming state
+        # may be saved by other graph nodes (observables evaluated at this time), and
+        # modifying it would invalidate their backward pass: evolve a copy then.
+        work_state = state.clone() if any(ctx.needs_input_grad) else state
         res, ham = EvolveStateVector.evolve(
             dt,
             omegas,
             deltas,
             phis,
             interaction_matrix,
-            state,
+            work_state,
             krylov_tolerance,
             pulser_lindblads,
         )
